@@ -22,12 +22,14 @@ EXTENDS Integers, Sequences, FiniteSets, TLC, SequencesExt
 CONSTANT Dev
 
 Kinds == {"map", "scalar", "comment"}
-Classes == {"id", "one", "two", "sel", "fi", "di", "fn", "srt", "var"}
+Classes == {"id", "one", "two", "sel", "fi", "di", "fn", "srt", "var", "obj", "objfi", "objfn", "coldi"}
+\* obj* : `{"v": .v}` (a map BUILT by the expression must still know the document and file it came from);  coldi : `[.v] | document_index`
 
 \* number of results of an expression class on one document (f, d are 0-based indices)
 Selected(f, d) == (f + d) % 2 = 1
 NRes(x, kind, f, d) ==
-  CASE x \in {"id", "fi", "di", "fn"} -> 1
+  CASE x \in {"id", "fi", "di", "fn", "coldi"} -> 1
+    [] x \in {"obj", "objfi", "objfn"} -> IF kind = "scalar" THEN 0 ELSE 1
     [] x = "one" -> IF kind = "scalar" THEN 0 ELSE 1
     [] x = "var" -> IF kind = "map" THEN 1 ELSE 0
     [] x = "two" -> IF kind = "scalar" THEN 0 ELSE 2
@@ -35,11 +37,14 @@ NRes(x, kind, f, d) ==
     [] x = "srt" -> IF kind = "map" THEN 1 ELSE 0
 
 \* output tokens
-SEP == [sep |-> TRUE, f |-> 0, d |-> 0, k |-> 0]
-Res(f, d, k) == [sep |-> FALSE, f |-> f, d |-> d, k |-> k]
+SEP == [sep |-> TRUE, f |-> 0, d |-> 0, k |-> 0, c |-> FALSE]
+\* c: the result is printed with the leading comment of ITS document (the identity on a map document that has one) -
+\* a comment belongs to one document and is printed there and nowhere else
+Res(f, d, k, c) == [sep |-> FALSE, f |-> f, d |-> d, k |-> k, c |-> c]
+WithLead(x, doc, k) == x = "id" /\ k = 1 /\ doc.kind = "map" /\ doc.lead \in {"sepc", "c"}
 
 \* ---- the printer (printer.go: PrintResults), one call per evaluated document
-PrintDoc(p, out, f, d, n, noSep) ==
+PrintDoc(p, out, f, d, n, noSep, lead) ==
   LET RECURSIVE go(_,_,_)
       go(pp, o, k) ==
         IF k > n THEN [p |-> pp, out |-> o]
@@ -47,7 +52,7 @@ PrintDoc(p, out, f, d, n, noSep) ==
                  needSep == (p1.prevDoc # d \/ p1.prevFile # f)
                  o1 == IF needSep /\ ~noSep THEN Append(o, SEP) ELSE o
                  p2 == [p1 EXCEPT !.prevDoc = d, !.prevFile = IF "prev-file" \in Dev THEN @ ELSE f]
-             IN go(p2, Append(o1, Res(f, d, k)), k + 1)
+             IN go(p2, Append(o1, Res(f, d, k, lead /\ k = 1)), k + 1)
   IN go(p, out, 1)
 
 \* ---- the machine
@@ -58,7 +63,7 @@ Start(F, X, N) == /\ files = F /\ x = X /\ noSep = N /\ fi = 1 /\ di = 1
                   /\ p = [first |-> TRUE, prevDoc |-> 0, prevFile |-> 0] /\ total = 0 /\ out = <<>> /\ phase = "run"
 NextDoc == /\ phase = "run" /\ fi <= Len(files) /\ di <= Len(files[fi])
            /\ LET doc == files[fi][di]
-                  r == PrintDoc(p, out, fi - 1, di - 1, NRes(x, doc.kind, fi - 1, di - 1), noSep)
+                  r == PrintDoc(p, out, fi - 1, di - 1, NRes(x, doc.kind, fi - 1, di - 1), noSep, WithLead(x, doc, 1))
               IN p' = r.p /\ out' = r.out
            /\ di' = di + 1 /\ total' = total + 1 /\ UNCHANGED <<files, x, noSep, fi, phase>>
 NextFile == /\ phase = "run" /\ fi <= Len(files) /\ di > Len(files[fi])
@@ -66,7 +71,7 @@ NextFile == /\ phase = "run" /\ fi <= Len(files) /\ di > Len(files[fi])
 \* no document in any file: the expression is evaluated once on an empty node (results of "document" (0,0))
 Fallback == /\ phase = "run" /\ fi > Len(files) /\ total = 0
             /\ LET n == CASE x = "two" -> 2 [] x \in {"sel", "srt", "var"} -> 0 [] OTHER -> 1
-                   r == PrintDoc(p, out, 0, 0, n, noSep)
+                   r == PrintDoc(p, out, 0, 0, n, noSep, FALSE)
                IN p' = r.p /\ out' = r.out
             /\ phase' = "done" /\ UNCHANGED <<files, x, noSep, fi, di, total>>
 Finish == /\ phase = "run" /\ fi > Len(files) /\ total > 0 /\ phase' = "done" /\ UNCHANGED <<files, x, noSep, fi, di, p, total, out>>
@@ -74,12 +79,12 @@ Next == NextDoc \/ NextFile \/ Fallback \/ Finish
 
 \* ---- the reference: per-document results, separator exactly between results of different documents
 AllResults(F, X) ==
-  FoldLeft(LAMBDA acc, f : acc \o FoldLeft(LAMBDA a, d : a \o [k \in 1..NRes(X, F[f][d].kind, f - 1, d - 1) |-> Res(f - 1, d - 1, k)], <<>>, [d \in 1..Len(F[f]) |-> d]),
+  FoldLeft(LAMBDA acc, f : acc \o FoldLeft(LAMBDA a, d : a \o [k \in 1..NRes(X, F[f][d].kind, f - 1, d - 1) |-> Res(f - 1, d - 1, k, WithLead(X, F[f][d], k))], <<>>, [d \in 1..Len(F[f]) |-> d]),
            <<>>, [f \in 1..Len(F) |-> f])
 NDocs(F) == FoldLeft(LAMBDA acc, f : acc + Len(F[f]), 0, [f \in 1..Len(F) |-> f])
 RefOut(F, X, N) ==
   LET all == IF NDocs(F) = 0
-             THEN [k \in 1..(CASE X = "two" -> 2 [] X \in {"sel", "srt", "var"} -> 0 [] OTHER -> 1) |-> Res(0, 0, k)]
+             THEN [k \in 1..(CASE X = "two" -> 2 [] X \in {"sel", "srt", "var"} -> 0 [] OTHER -> 1) |-> Res(0, 0, k, FALSE)]
              ELSE AllResults(F, X)
   IN FoldLeft(LAMBDA acc, i : IF i > 1 /\ ~N /\ (all[i].f # all[i - 1].f \/ all[i].d # all[i - 1].d) THEN acc \o <<SEP, all[i]>> ELSE Append(acc, all[i]),
               <<>>, [i \in 1..Len(all) |-> i])
